@@ -96,7 +96,7 @@ impl EnvDispatch for TheEnv {
                         (*(FW_CELL as *const AtomicUsize)).poke(FW_SEQ);
                     }
                 }
-                100 | 101 => {
+                100 | 101 | 106 => {
                     // wait-strategy harnesses (wait.rs contracts): count pauses, release the waiter
                     crate::wait::BusyWait::vf_pause(kind, addr);
                 }
